@@ -9,12 +9,13 @@ def tu_check(tu):
     t = rg.c_range_table(tu)
     sa = rg.seek_algebra(tu)
     bn = rg.bound_norm_c(tu)
-    return dict(range={repr(k): v for k, v in t.items()}, seek=sa, findings=bn["findings"], bn=bn["n"])
+    unb = rg.c_unbounded_table(tu)
+    return dict(unb={repr(k): v for k, v in unb.items()}, range={repr(k): v for k, v in t.items()}, seek=sa, findings=bn["findings"], bn=bn["n"])
 
 
 def run(tier="quick", seed=0, use_cache=True):
     res = engine.Result("C02")
-    res.rules = ["RANGE-TABLE", "BOUND-NORM", "SEEK-ALGEBRA", "ITER-CONTINUE", "TREE-EXCLUDE"]
+    res.rules = ["RANGE-TABLE", "BOUND-NORM", "SEEK-ALGEBRA", "ITER-CONTINUE", "TREE-EXCLUDE", "UNBOUNDED-END", "RANGE-SHAPE"]
     res.exhaustive = True
     res.explanation = (
         "Leaf-level and cursor-level pieces of the range machinery, decided "
@@ -32,9 +33,18 @@ def run(tier="quick", seed=0, use_cache=True):
         "subtracts offset + 1 and lands on len' - 1). ITER-CONTINUE: the "
         "Python lazy sequence moves on to the next leaf unless a leaf after "
         "the first yielded nothing (decision table over which leaves yield). "
-        "The tree-level endpoint search with its move-left/right repair, "
-        "exclusive unbounded ends across leaves and reachable tree shapes "
-        "are not decided.")
+        "TREE-EXCLUDE: decision table of the range arguments the Python lazy "
+        "sequence hands to each of three chained leaves for every (bound "
+        "omitted / None / given) x exclusion flags: an omitted bound's "
+        "exclusion reaches the first / last leaf only. UNBOUNDED-END / "
+        "RANGE-SHAPE: the omitted-bound branches of C BTree_rangeSearch are "
+        "walked symbolically for every (exclusive, end leaf has several "
+        "entries, chain has one leaf); the end must be FIRST[0] / FIRST[1] / "
+        "NEXT(FIRST)[0] / empty (mirror image for the high end) and may not "
+        "depend on the root's child count. "
+        "The tree-level endpoint search with its move-left/right repair "
+        "(BTree_findRangeEnd, _findbucket) and reachable tree shapes are not "
+        "decided.")
     res.assumptions = ["the search index I is the index of the key if found, else the insertion index (BUCKET_SEARCH / _search contract, part of C01)"]
     out = engine.map_tus("sa.props.C02", "tu_check", use_cache=use_cache)
     n = 0
@@ -68,6 +78,25 @@ def run(tier="quick", seed=0, use_cache=True):
                        "BTreeItems_seek differ from the geometry of the leaf "
                        "chain: indexing a lazy sequence lands on the wrong "
                        "entry", path=[]), fam)
+        for which, excl, many, single in itertools.product(("min", "max"), *[(True, False)] * 3):
+            n += 1
+            got = r["unb"][repr((which, excl, many, single))]
+            want = rg.c_unbounded_spec(which, excl, many, single)
+            if got != want:
+                shape = got.startswith("depends on")
+                res.findings.add(dict(
+                    rule="RANGE-SHAPE" if shape else "UNBOUNDED-END", function="BTree_rangeSearch",
+                    file="src/BTrees/BTreeTemplate.c", line=1,
+                    construct="%s omitted, exclusive=%s, end leaf has %s, chain has %s: %s (specified %s)" % (
+                        which, excl, "several entries" if many else "one entry",
+                        "one leaf" if single else "several leaves", got, want),
+                    detail="with the %s bound omitted the %s end of the range must be "
+                           "the %s entry of the leaf chain, moved by one entry when "
+                           "exclusive; how many leaves there are is a property of the "
+                           "chain (next == NULL / last == first), not of the root's "
+                           "child count" % (which, "low" if which == "min" else "high",
+                                            "first" if which == "min" else "last"), path=[]), fam)
+    res.count("UNBOUNDED-END", 16 * len(out))
     res.count("RANGE-TABLE", 8 * len(out))
     res.count("SEEK-ALGEBRA", len(spec_seek) * len(out))
     res.count("BOUND-NORM", sum(r["bn"] for r in out.values()))
